@@ -18,7 +18,8 @@ RULE = ('listing: zip archives with 0..6 members (nested directory members, stor
         'LIMIT 0..M+2 x archives on/off, under a controlled clock on every day of month 1..31 of Jan/Mar, 28/29 Feb and both '
         'year ends; faults: EVERY truncation length 0..L of a small archive, every single-bit flip (and ^0xFF, 0x00) of every byte of the archive (local headers, data, central '
         'directory, end record), every subset of the member list as an archive of its own, unreadable archives (chmod 000 as uid 65534, injected EIO); non-trivial = the '
-        'run lists at least one member or the archive is damaged')
+        'run lists at least one member or the archive is damaged'
+        '; the configured extension spelt in four letter cases')
 ASSUMPTIONS = ['member rows are modelled with Python zipfile: name, uncompressed size, trailing-slash directory flag, unix mode '
                'from external_attr, DOS timestamp as local wall-clock time',
                'a byte flip may legitimately change a member name or size: for damaged archives only "no more member rows than real '
